@@ -1326,6 +1326,9 @@ func (e *Exec) builtin(b *ssa.Builtin, args []Value, c *ssa.CallCommon) Value {
 		case VSymSlice:
 			return VInt{a.Len}
 		case VChan:
+			if a.C == nil {
+				return VInt{lenC(0)}
+			}
 			return VInt{lenC(len(a.C.Q))}
 		case VMap:
 			if a.M == nil {
@@ -1334,6 +1337,12 @@ func (e *Exec) builtin(b *ssa.Builtin, args []Value, c *ssa.CallCommon) Value {
 			return VInt{lenC(len(a.M.Keys))}
 		}
 	case "cap":
+		if ch, ok := args[0].(VChan); ok {
+			if ch.C == nil {
+				return VInt{lenC(0)}
+			}
+			return VInt{lenC(ch.C.Cap)}
+		}
 		return VInt{lenC(args[0].(VSlice).Cap)}
 	case "copy":
 		dst := args[0].(VSlice)
